@@ -94,6 +94,7 @@ class CustomOperationGenerator:
             self._class_def.body.append(ast.Pass())
 
         self.argument_generator.add_custom_scalar_imports()
+        self._imports.extend(self.argument_generator.imports)
 
         self._class_def.lineno = len(self._imports) + 3
 
